@@ -43,6 +43,7 @@ struct Gen {
     tabs: Vec<TabG>,
     cp: i64,
     strings: Vec<String>, // strings used so far (to share them between cells and tables)
+    chars: std::collections::BTreeSet<char>, // every character handed out so far (a code page switch must be able to keep them)
     next_tab: u32,
     streams: Vec<String>,
 }
@@ -74,6 +75,7 @@ impl Gen {
         if !s.is_empty() && self.strings.len() < 12 {
             self.strings.push(s.clone());
         }
+        self.chars.extend(s.chars());
         s
     }
     fn value(&mut self, c: &ColG, valid: bool) -> J {
@@ -146,7 +148,8 @@ impl Gen {
     }
     /// can every live string (strings handed out so far) be represented in code page `cp`?
     fn fits(&self, cp: i64) -> bool {
-        self.strings.iter().all(|s| s.chars().all(|c| ref_encode(cp, &c.to_string()).map(|b| b != b"?").unwrap_or(false)))
+        // every character handed out so far (not only the strings kept for re-use) must exist in the page
+        self.chars.iter().all(|c| ref_encode(cp, &c.to_string()).map(|b| b != b"?").unwrap_or(false))
     }
     fn event(&mut self, open: bool, last_flush_ok: bool) -> J {
         if !open {
@@ -232,7 +235,7 @@ pub fn main(args: &Args) -> i32 {
     let mut nlong = 0usize;
     let mut by_op: std::collections::BTreeMap<String, u64> = Default::default();
     for run in 0..runs {
-        let mut g = Gen { rng: Rng::new(seed * 1_000_003 + run), tabs: vec![], cp: 65001, strings: vec![], next_tab: 0, streams: vec![] };
+        let mut g = Gen { rng: Rng::new(seed * 1_000_003 + run), tabs: vec![], cp: 65001, strings: vec![], chars: Default::default(), next_tab: 0, streams: vec![] };
         let mut sess = Session::empty();
         let pt = ["Installer", "Patch", "Transform"][(run % 3) as usize];
         let create = json!({"op": "Create", "args": {"ptype": pt}});
